@@ -35,7 +35,7 @@ pub fn describe(rep: &Report) {
     rep.assume("a-priori noise calculus (worst case, expansion factor N, every term doubled): decryption is only compared when it says the result must decrypt correctly; otherwise only termination, level, metadata, validity and byte-identity of the forms are judged");
     rep.assume("source ciphertexts of size 3 and 4 are produced by real multiplications without relinearisation, either at the first level followed by single-level switches, or after switching the fresh operands down (both orders are enumerated)");
     rep.assume("an equal target (source level == target level) may be the identity or be refused (the statement does not say); an accepted equal target must return the operand unchanged");
-    rep.assume("CKKS mod_switch with a scale that no longer fits a level on the way is documented to be refused; acceptance there is not judged");
+    rep.assume("CKKS mod_switch with a scale that no longer fits a level on the way must be refused: computing it cannot preserve the message");
     rep.assume("decryption, encoding/decoding and the forward NTT root tables of the library are used as given (C01, C12, C09)");
     rep.assume("parameter values: N in {4,8} (16 thorough), the listed prime-size patterns, t in {17, 64, t > q_0}; not all primes / plain moduli");
 }
@@ -790,10 +790,17 @@ fn run_ct(c: &Case, seed: u64, sec: &'static str) -> CaseOut {
                     }
                 }
                 if scale_edge {
-                    // documented refusal (scale out of bounds on the way); acceptance is not judged
+                    // the scale does not fit a level on the way: the message cannot survive there (it wraps), so the only way
+                    // to "keep the message" is the documented refusal; an accepted switch is a violation (seeded change C05-D)
                     obs_class = match &res {
                         Err(p) => format!("scale-edge:refused:{}", panic_class(p)),
-                        Ok(_) => "scale-edge:accepted".into(),
+                        Ok(_) => {
+                            return CaseOut::fail(
+                                cx.key(&rel, "scale-does-not-fit-the-target-level:accepted"),
+                                format!("refused: the scale {:e} does not fit a level between {} and {to}", src.ct.scale(), c.src),
+                                "the switch was computed (the message wraps modulo the smaller modulus)",
+                            )
+                        }
                     };
                     continue;
                 }
@@ -966,7 +973,13 @@ fn run_pt(c: &Case, seed: u64, sec: &'static str) -> CaseOut {
                 if scale_edge {
                     obs_class = match &res {
                         Err(p) => format!("scale-edge:refused:{}", panic_class(p)),
-                        Ok(_) => "scale-edge:accepted".into(),
+                        Ok(_) => {
+                            return CaseOut::fail(
+                                cx.key(&rel, "scale-does-not-fit-the-target-level:accepted"),
+                                format!("refused: the scale {:e} does not fit a level between {} and {to}", src.scale(), c.src),
+                                "the switch was computed (the message wraps modulo the smaller modulus)",
+                            )
+                        }
                     };
                     continue;
                 }
